@@ -138,5 +138,14 @@ func (r *Runner) RunHistory(histNo int, o HistOpts) error {
 	if o.Wide > 0 {
 		r.WideProbe(leaves, o.Wide)
 	}
+	if o.Cold && !r.Cfg.Mem {
+		rounds, k := 3, 4
+		if r.Cfg.Quantised {
+			rounds, k = 12, 6 // (a trained quantiser keeps per-query state: more chances to overlap)
+		}
+		for i := 0; i < rounds; i++ {
+			r.FlatBurst(k)
+		}
+	}
 	return nil
 }
